@@ -1564,6 +1564,31 @@ func streamGroup(g *G) { // C13
 			}
 			rid++
 		}
+		// a Hosts matcher grows AFTER it was composed into And/Or matchers: a parameter domain added later captures a
+		// parameter; when a later And member rejects and another Or member accepts, nothing of it may be left
+		if g.chance(0.4) {
+			hg, hr, hh := 600000+gid, 600000+rid, 7000+gid
+			g.emit("hosts %d %s", hh, encL([]string{"api.example.com"}))
+			g.emit("group %d 0 0 %%_ %%- 0 %%- %%- %%- 0 0", hg)
+			g.emit("group-new %d %d %s %s", hg, hr, encB("late"), fmt.Sprintf("or(and(hosts:%d;pv:%%_:v1);pv:%%_:v2)", hh))
+			g.emit("handle %d /x 1 %%- %s", hr, encL([]string{"GET"}))
+			probe := func() {
+				for _, q := range [][2]string{{"acme.example.com", "/v2/x"}, {"acme.example.com", "/v1/x"}, {"api.example.com", "/v2/x"}, {"api.example.com", "/v1/x"}, {"other.org", "/v2/x"}} {
+					g.serveLine("gserve", hg, "GET", q[1], q[0], nil)
+				}
+			}
+			probe()
+			g.emit("hosts-add %d %s", hh, encB("{tenant}.example.com"))
+			probe()
+			// two requests alive at once after requests went through the group (contexts are pooled; a group request hands
+			// its context to the router it dispatches to — released once)
+			g.emit("handle %d %s 2 %%- %s", hr, encB("/item/{i}/{j}"), encL([]string{"GET"}))
+			g.serveLine("gserve", hg, "GET", "/v2/item/a/b", "acme.example.com", nil)
+			g.emit("nserve %d %s %s %%_ %%- %%! %s %s", hr, encB("GET"), encB("/item/o1/o2"), encB("GET"), encB("/item/i1/i2"))
+			g.serveLine("gserve", hg, "GET", "/v2/x", "acme.example.com", nil)
+			g.emit("nserve %d %s %s %%_ %%- %%! %s %s", hr, encB("GET"), encB("/item/p1/p2"), encB("GET"), encB("/x"))
+			rid++
+		}
 		g.emit("group-remove %d %s", gid, encB(g.pick(names)))
 		g.emit("group-names %d", gid)
 		g.emit("group-routes %d", gid)
@@ -1737,19 +1762,27 @@ func dedup(l []string) []string {
 
 func streamVersion(g *G) { // C15
 	versionLists := [][]string{{"v1"}, {"/v1"}, {"v1/"}, {"/v1/"}, {"v1", "v11"}, {"v11", "v1"}, {"v1", "v2", "v3"}, {""}, {"v1", ""}, {"/"}, {"a/b"}, nil,
-		{"v1/x", "v1"}, {"v1", "v1/x"}, {"a", "a/b"}, {"a/b", "a"}} // two listed versions prefix one path: the first listed wins
-	paths := []string{"/v1/x/a", "/v1/x/", "/a/b/c", "/a/b/", "/v1/a", "/v1", "/v1/", "/v11/a", "/v1a", "v1/a", "/v2/v1/a", "/v1/v1/a", "", "/", "//", "/a/b/c", "/v3/", "\xff/v1/", "/V1/a"}
+		{"v1/x", "v1"}, {"v1", "v1/x"}, {"a", "a/b"}, {"a/b", "a"}, // two listed versions prefix one path: the first listed wins
+		{"v1//"}, {"//"}, {"/a//", "a"}, {"v1/x", "v1", "/"}} // repeated slashes inside/at the end of a version; a catch-all listed last
+	paths := []string{"/v1//users", "//users", "/a//b/c", "/v1//", "/v1/x/a", "/v1/x/", "/a/b/c", "/a/b/", "/v1/a", "/v1", "/v1/", "/v11/a", "/v1a", "v1/a", "/v2/v1/a", "/v1/v1/a", "", "/", "//", "/a/b/c", "/v3/", "\xff/v1/", "/V1/a"}
 	for !g.full() {
 		vs := versionLists[g.intn(len(versionLists))]
 		g.emit("pv-new %s", encVersions(vs))
 		expr := "pv:" + encB(g.pick([]string{"", "version", "v"})) + ":" + encVersions(vs)
-		for i := 0; i < 6; i++ {
+		for i := 0; i < 8; i++ {
 			p := g.pick(paths)
 			if g.chance(0.3) {
 				p = g.mutatePath(p)
 			}
 			ps := g.pick([]string{"%-", "version=old", "k=1"})
 			g.emit("match %s GET %s %%_ %%- %%! %s", expr, encB(p), ps)
+		}
+		if len(vs) >= 2 { // the same matcher object: a request for the LAST listed version, then one that two versions prefix
+			last := strings.Trim(vs[len(vs)-1], "/")
+			first := strings.Trim(vs[0], "/")
+			g.emit("match %s GET %s %%_ %%- %%! %%-", expr, encB("/"+last+"/zz"))
+			g.emit("match %s GET %s %%_ %%- %%! %%-", expr, encB("/"+first+"/zz"))
+			g.emit("match %s GET %s %%_ %%- %%! %%-", expr, encB("/"+last+"/"+first+"/zz"))
 		}
 		hvs := [][]string{{"1"}, {"1", "2"}, {"2.0", ""}, nil}[g.intn(4)]
 		hexpr := "hv:" + encB(g.pick([]string{"", "version"})) + ":" + encB(g.pick([]string{"", "version", "v"})) + ":" + encVersions(hvs)
